@@ -1,4 +1,4 @@
-CONSTANT Names = {"abstract", "become", "box", "do", "dyn", "extern", "final", "impl", "loop", "macro", "mod", "move", "override", "priv", "ref", "static", "struct", "try", "typeof", "unsafe", "unsized", "use", "virtual", "where", "String", "Box", "HashSet", "std", "core", "incan_stdlib", "incan_derive", "FieldInfo", "IncanClass", "Serialize", "__parts", "__args", "Upper", "lower_x", "union", "default", "auto", "macro_rules", "usize", "u32", "vec", "format", "panic", "r", "Ordering", "Display", "Clone", "main_fn", "new", "len_of"}
+CONSTANT Names = {"abstract", "become", "box", "do", "dyn", "extern", "final", "impl", "loop", "macro", "mod", "move", "override", "priv", "ref", "static", "struct", "try", "typeof", "unsafe", "unsized", "use", "virtual", "where", "String", "Box", "HashSet", "std", "core", "incan_stdlib", "incan_derive", "FieldInfo", "IncanClass", "Serialize", "__parts", "__args", "Upper", "lower_x", "union", "default", "auto", "macro_rules", "usize", "u32", "vec", "format", "panic", "r", "Ordering", "Display", "Clone", "main_fn", "new", "len_of", "append", "upper", "get", "keys", "contains"}
 INIT Init
 NEXT Next
 INVARIANTS Invariance Emit
